@@ -271,6 +271,72 @@ EARLYREJECT = ops_family("earlyreject", "^TestW2EarlyReject$", ["earlyreject"], 
                               "request sizes below and above the 64 KiB window; the caller's result must be exactly that status")
 
 
+def _neg_monitor(op, im):
+    """C11 on the public API: towards a legacy peer (no negotiate header) no settings frame and only revision zero;
+    flow control (revision one) exactly when both ends advertise negotiation and neither disabled it."""
+    k = dict(a.split("=", 1) for a in op.split()[1:] if "=" in a)
+    r = dict(a.split("=", 1) for a in im.split() if "=" in a)
+    if r.get("header") != "1":
+        return "negotiate-header-not-sent"
+    both = k["peer"] == "enabled"
+    if "settings" in r:
+        if (r["settings"] == "1") != both:
+            return "settings-frame-sent-to-legacy-peer" if not both else "settings-frame-missing"
+        if r.get("close") != "0":
+            return "rpc-fails-after-negotiation"
+    if "rev" in r:
+        want = "1" if both and k["lib"] == "enabled" else "0"
+        if r["rev"] != want:
+            return "wrong-revision-on-new-stream"
+        if r.get("rpc") != "nil":
+            return "rpc-fails-after-negotiation"
+    return None
+
+
+NEGOTIATE = ops_family("negotiate", "^TestW2Negotiate$", ["negotiate"], monitor=_neg_monitor,
+                       nontrivial=lambda op, im, mo: True,
+                       rule="real grpc-go (bufconn): the library as forward caller, reverse server, forward handler and reverse handler (flow control enabled / "
+                            "disabled) against a hand-written peer that does or does not advertise negotiation: negotiate header, settings frame, revision of "
+                            "new_stream and one unary RPC, compared with Negotiate.settingsSent / revisionUsed")
+
+
+class _FwdMonitor:
+    """C10, forward tunnels: after InitiateShutdown every new RPC on any forward tunnel is refused with Unavailable; RPCs in
+    flight finish normally and their tunnels stay up."""
+
+    def __init__(self):
+        self.shut = False
+
+    def __call__(self, op, im):
+        name = op.split()[0]
+        if name == "f.init":
+            self.shut = False
+        if name == "f.shutdown":
+            self.shut = True
+        if name == "f.rpc":
+            if self.shut and im != "status:Unavailable":
+                return "rpc-accepted-during-shutdown"
+            if not self.shut and im != "nil":
+                return "rpc-fails-before-shutdown"
+        if name == "f.hold":
+            if self.shut and im == "ok":
+                return "rpc-accepted-during-shutdown"
+            if not self.shut and im != "ok":
+                return "rpc-fails-before-shutdown"
+        if name == "f.finish" and im != "eof":
+            return "in-flight-rpc-disturbed"
+        if name == "f.open" and im != "ok":
+            return "forward-tunnel-refused"
+        return None
+
+
+FWDSHUTDOWN = ops_family("fwdshutdown", "^TestW2ForwardShutdown$", ["fwdshutdown"], monitor=_FwdMonitor(),
+                         nontrivial=lambda op, im, mo: "Unavailable" in im or im == "eof",
+                         rule="real grpc-go (bufconn): up to three forward tunnels of one TunnelServiceHandler, in-flight bidi RPCs, InitiateShutdown at an arbitrary "
+                              "point (possibly twice), new unary and bidi RPCs on old and new tunnels before and after, in-flight RPCs continued and finished, virtual "
+                              "minutes in between", n_quick=30, n_thorough=600)
+
+
 CLOSEERR = ops_family("closeerr", "^TestW2CloseErr$", ["closeerr"], monitor=_closeerr_monitor,
                       nontrivial=lambda op, im, mo: "cause=close" not in op,
                       rule="forward tunnels over real grpc-go (bufconn): Close / cancel / deadline of the opening context / server stop, with and "
@@ -500,7 +566,7 @@ _CWORLD_RULE = ("C-world: real newTunnelChannel/recvLoop/client streams with scr
 
 
 def CWORLD(prop):
-    return world_family("cworld", "^TestCWorldRandom$", "cworld", MON.CWorldMonitor, prop, "c.init", _CWORLD_RULE, 300, 6000)
+    return world_family("cworld", "^TestCWorldRandom$", "cworld", MON.CWorldMonitor, prop, "c.init", _CWORLD_RULE, 300, 3000)
 
 
 _W1_RULE = ("W1: real tunnel client and real tunnel server joined by harness-owned FIFO carrier queues inside a synctest bubble; one stimulus per "
@@ -511,7 +577,7 @@ _W1_RULE = ("W1: real tunnel client and real tunnel server joined by harness-own
 
 
 def W1(prop):
-    return world_family("w1", "^TestW1Random$", "w1", MON.W1Monitor, prop, "svc ", _W1_RULE, 150, 4000)
+    return world_family("w1", "^TestW1Random$", "w1", MON.W1Monitor, prop, "svc ", _W1_RULE, 150, 2000)
 
 
 def REGISTRY(prop):
@@ -528,7 +594,7 @@ def META(prop):
                         "returns one of the 17 codes with message (ASCII, UTF-8, empty) and optional detail list; the caller uses Invoke or a bidi stream with the "
                         "call options Header, Trailer, Peer, PerRPCCredentials with and without outgoing metadata; metadata classes absent/empty/multi-valued/-bin/"
                         "UTF-8/empty value and (rarely) non-UTF-8 bytes; after each case a bystander RPC checks that the tunnel is alive",
-                        150, 3000, compare="contains")
+                        150, 1500, compare="contains")
 
 
 UTF8 = ops_family("utf8", "^TestPureUTF8$", ["utf8"], rule="Metadata.validUTF8 vs utf8.Valid and vs proto.Marshal of the converted metadata, on boundary and random byte strings",
@@ -548,11 +614,11 @@ def LIFECYCLE(prop):
                         "W2 lifecycle: one ReverseTunnelServer with several Serve calls over grpc-go on bufconn, echo and non-reading in-flight RPCs, "
                         "GracefulStop / Stop / peer hang-up / new RPCs / new Serve calls at arbitrary points, virtual-time ticks of one hour; the "
                         "state machine (state, instances) is compared with the model, everything else is judged by the lifecycle monitor",
-                        60, 1500, compare="contains")
+                        60, 600, compare="contains")
 
 
 def SWORLD(prop):
-    return world_family("sworld", "^TestSWorldRandom$", "sworld", MON.SWorldMonitor, prop, "svc ", _SWORLD_RULE, 300, 6000)
+    return world_family("sworld", "^TestSWorldRandom$", "sworld", MON.SWorldMonitor, prop, "svc ", _SWORLD_RULE, 300, 3000)
 
 
 def race_family(prop, secs_quick=8, secs_thorough=90):
@@ -649,7 +715,7 @@ PROPS = {
     "C10": {
         "lean_targets": ["Proofs.Props.C10"],
         "prop_files": ["Proofs/Props/C10.lean"],
-        "families": [SWORLD("C10"), W1("C10"), LIFECYCLE("C10")],
+        "families": [SWORLD("C10"), W1("C10"), LIFECYCLE("C10"), FWDSHUTDOWN],
         "trusted_base": ["L-frame server endpoint model TunnelModel/LFrame/Server.lean (closing flag in createStream)"],
         "assumptions": ["as C08"],
     },
@@ -693,7 +759,7 @@ PROPS = {
     "C11": {
         "lean_targets": ["Proofs.Props.C11"],
         "prop_files": ["Proofs/Props/C11.lean"],
-        "families": [CWORLD("C11"), SWORLD("C11"), W1("C11"), SUPPORTED],
+        "families": [CWORLD("C11"), SWORLD("C11"), W1("C11"), SUPPORTED, NEGOTIATE],
         "side_conditions": ["Proofs.Facts.supported_enabled", "Proofs.Facts.supported_disabled", "Proofs.Facts.settings_stream_id", "Proofs.Facts.negotiate_header"],
         "trusted_base": ["Negotiate.lean model of the revision loop in recvLoop and of supportedRevisions",
                          "L-frame client endpoint model TunnelModel/LFrame/Client.lean (settings phase)"],
